@@ -26,8 +26,8 @@ for pid in all_ids:
 m = {
     "version": 1,
     "setup_cmd": "./vx setup",
-    "hooks": {"guard": "cfg(mamba_verif) (replay hook module) and cfg(kani) (Kani contracts; set only by cargo kani)",
-              "enable": "RUSTFLAGS='--cfg mamba_verif' when the replay crate builds /repo; `cargo kani` sets cfg(kani) itself",
+    "hooks": {"guard": "cargo feature mamba_verif (off by default; replay hook module) and cfg(kani) (Kani contracts; set only by cargo kani)",
+              "enable": "/verif/replay depends on /repo with features = [\"mamba_verif\"]; `cargo kani` sets cfg(kani) itself",
               "baseline_off_cmd": "/verif/tools/baseline.py", "source_commits": hooks, "add_only": True},
     "engines": [{"name": "vx", "path": "/verif/vx", "serves_properties": [c["property_id"] for c in checks],
                  "kind_free_text": "Python driver: mechanical verbatim extraction of real function bodies + contracts (contracts/*.vx.rs) -> single-file Verus; Kani function contracts in place for common/position.rs; classification of failed obligations; vacuity guard; replay; evidence writer"}],
